@@ -237,6 +237,22 @@ theorem C17_parfor_empty (first last step grain : Int) (fuel : Nat) (h : ¬ firs
   refine ⟨?_, ?_, ?_, seqLoop_empty first last step h⟩ <;>
     simp [parFor, parForStep, parForGrain, h]
 
+/-- **the results do not depend on the fuel**: once a form returns within some fuel it returns
+    the same structure within every larger fuel (so "returns" is meaningful) -/
+theorem C17_parfor_fuel_irrelevant (first last step grain : Int) (fuel fuel' : Nat)
+    (hle : fuel ≤ fuel') (t : FJ Ev) :
+    (parFor first last fuel = some t → parFor first last fuel' = some t) ∧
+    (parForStep first last step fuel = some t → parForStep first last step fuel' = some t) ∧
+    (parForGrain first last step grain fuel = some t →
+      parForGrain first last step grain fuel' = some t) := by
+  unfold parFor parForStep parForGrain
+  by_cases h : first < last
+  · simp only [h, not_true_eq_false, if_false]
+    exact ⟨auxF_mono_le first 1 fuel fuel' _ _ t hle, auxF_mono_le first step fuel fuel' _ _ t hle,
+      grainAuxF_mono_le first step grain fuel fuel' _ _ t hle⟩
+  · simp only [h, not_false_eq_true, if_true]
+    exact ⟨id, id, id⟩
+
 /-- **the pinned snapshot violated C17** (D8): on an empty or reversed range — e.g.
     `mtbb::parallel_for(3, 3, f)` — the pinned entry points hand `b ≤ a` to `parallel_for_aux`,
     whose recursion has no base case for it: no amount of fuel lets the call return -/
@@ -358,11 +374,13 @@ theorem C17_range_form (grain b e : Int) (hg : 1 ≤ grain) :
       calls t.seq = [] ∧
       covered 1 (chunks t.seq) = seqLoop b e 1 ∧
       (∀ c ∈ chunks t.seq, b ≤ c.1 ∧ c.1 < c.2 ∧ c.2 - c.1 ≤ grain ∧ c.2 ≤ e) ∧
-      (¬ b < e → t.seq = []) := by
+      (¬ b < e → t.seq = []) ∧
+      ∀ s, Sched t s → (chunks s).Perm (chunks t.seq) ∧ (calls s).Perm (calls t.seq) := by
   obtain ⟨t, cs, ht, hseq, htl⟩ := rangeF_spec grain hg (fuelFor (e - b)) b e (by unfold fuelFor; omega)
   have hch : chunks t.seq = cs := by
     rw [hseq, chunks_map_chunk]; simp
-  refine ⟨t, ht, by rw [hseq]; exact calls_map_chunk _ _ cs, ?_, ?_, ?_⟩
+  refine ⟨t, ht, by rw [hseq]; exact calls_map_chunk _ _ cs, ?_, ?_, ?_,
+    fun s hs => ⟨chunks_perm hs.perm, calls_perm hs.perm⟩⟩
   · rw [hch]
     by_cases hbe : b < e
     · rw [if_pos hbe] at htl
@@ -403,18 +421,6 @@ end MythVerif.ParFor
 
 namespace MythVerif.TaskGroup
 open MythVerif.Bulk
-
-/-- the states a task group can be in: after the constructor, after `run`, after `wait` -/
-inductive Reach (cfg : Cfg) : TG → Prop where
-  | init : Reach cfg (TG.init cfg)
-  | run {g} (size : Nat) : Reach cfg g → Reach cfg (g.run cfg size)
-  | wait {g} : Reach cfg g → Reach cfg (g.wait cfg).2
-
-theorem reach_inv (cfg : Cfg) (hc : 0 < cfg.cap) (g : TG) (h : Reach cfg g) : Inv cfg g := by
-  induction h with
-  | init => exact inv_init cfg
-  | run size _ ih => exact run_inv cfg hc _ size ih
-  | wait _ ih => exact wait_inv cfg _ ih
 
 /-- **`wait` joins exactly the tasks added, in order, and leaves the lists empty**: in any
     reachable state, after any number of further `run` calls (with any task sizes — also more
